@@ -84,11 +84,7 @@ ShapeDef(i) ==
                   @@ A("S1", 2, 5) :> Fm(CallN("SUM", <<Rng("", 1, 1, 1, 1), ErrLit("#N/A")>>))
                   @@ A("S1", 2, 6) :> Fm(CallN("MAX", <<ErrLit("#REF!"), Rng("", 1, 1, 1, 1)>>))
                   @@ A("S1", 2, 7) :> Fm(Bin("+", RelRef(1, 8), N1))          \* ... and a computed one
-                  \* a result the library computes with its numeric back end (another number type inside the value object), and cells
-                  \* that hand on that very value: a bare reference, the selected branch of an IF
-                  @@ A("S1", 2, 9) :> Fm(CallN("SIGN", <<RelRef(1, 1)>>))
-                  @@ A("S1", 2, 10) :> Fm(RelRef(2, 9))
-                  @@ A("S1", 2, 11) :> Fm(CallN("IF", <<Bin(">", RelRef(1, 1), NumLit(<<48>>)), RelRef(2, 9), RelRef(1, 1)>>))
+
                   @@ A("S 2", 2, 1) :> Fm(Bin("*", RelRef(1, 1), Ref("S1", 1, 7, TRUE, TRUE))) ),
          names |-> ("Rate" :> Ref("S1", 1, 1, TRUE, TRUE)), inputs |-> {A("S1", 1, 1), A("S 2", 1, 1)}]
     [] i = "twin" ->         \* the SAME formula text, with unqualified references, on two sheets holding different data
@@ -208,6 +204,14 @@ ShapeDef(i) ==
                       ELSE Fm(Bin("+", RelRef(1, a[3] - 1), N1))],
          names |-> <<>>, inputs |-> {A("S1", 1, 1), A("S1", 2, 1)},
          targets |-> {A("S1", 1, 3), A("S1", 1, DeepLen \div 2 + 5), A("S1", 1, DeepLen)}]
+    [] i = "shared" ->       \* a result the library computes with its numeric back end (another number type inside the value object), and
+                             \* cells that hand on that very value: a bare reference, the selected branch of an IF; a defined name after them
+        [cells |-> ( A("S1", 1, 1) :> Kc(3)
+                  @@ A("S1", 2, 1) :> Fm(CallN("SIGN", <<RelRef(1, 1)>>))
+                  @@ A("S1", 2, 2) :> Fm(RelRef(2, 1))
+                  @@ A("S1", 2, 3) :> Fm(CallN("IF", <<Bin(">", RelRef(1, 1), NumLit(<<48>>)), RelRef(2, 1), RelRef(1, 1)>>))
+                  @@ A("S1", 2, 4) :> Fm(Bin("+", NameRef("Rate"), RelRef(2, 2))) ),
+         names |-> ("Rate" :> Ref("S1", 1, 1, TRUE, TRUE)), inputs |-> {A("S1", 1, 1)}]
     [] i = "crit" ->         \* criteria that are written differently and may read alike as text: a reference to an empty cell, the empty
                              \* text, the number 0, the text "0", FALSE - over a column holding 0, FALSE, 5 and an empty cell
         [cells |-> ( A("S1", 1, 1) :> Kc(0) @@ A("S1", 1, 2) :> [c |-> "const", v |-> Bool(FALSE)] @@ A("S1", 1, 3) :> Kc(5)
